@@ -18,7 +18,10 @@ CLAIM = dict(
          "parse_csp_header(dump_csp_header(d)) and parse_content_range_header(ContentRange.to_header()) on their stated domains; "
          "assignment / read-back normal forms of the typed cache-control directives and of the integer scalar properties; "
          "WWWAuthenticate: type / token / parameters assignment changes exactly that field, the header is the serialisation after "
-         "every notifying step, token schemes re-read equal. "
+         "every notifying step, token schemes and parameter schemes (incl. Digest's always-quoted keys: the per-key-quoting dict "
+         "round trip) re-read equal, list assignment gives one line per item; mimetype_params as ONE held view: a notifying "
+         "operation writes the parameters next to the response's current media type whatever happened to Content-Type in "
+         "between (re-read over the C06 round-trip contract); date-valued scalars over a date contract. "
          "The on_update decision functions, the _set_cache_value decision chain, the property tables (directive key / empty "
          "value / type, CSP directive names, header names) and the change-notification tables of UpdateDictMixin are regenerated "
          "from the source on every run; the models are compared with werkzeug.wrappers.Response by differential execution on "
@@ -27,9 +30,10 @@ CLAIM = dict(
          "urllib.request.parse_http_list and of str.strip/partition/split (validated differentially); int() modelled on ASCII "
          "decimal strings only. Items / values containing CR or LF are outside the domain (Headers refuses them, C05); keys ending "
          "in an asterisk (RFC 2231 form) are outside the dict codec's domain. NOT modelled in Coq, judged on the implementation by "
-         "the harness oracles only: mimetype_params, www_authenticate list assignment, the date-valued "
-         "(email.utils / datetime contract), string-valued, CORS set-valued and enum-valued scalar properties, whole-property "
-         "assignment of ContentRange / WWWAuthenticate objects. Known finding: a set view holding case-insensitive duplicates drifts.",
+         "the harness oracles only: the string-valued, CORS set-valued and enum-valued scalar properties, whole-property "
+         "assignment of ContentRange objects. Contracts (Section variables, validated by the harness against the library): "
+         "http_date / parse_date (email.utils, datetime; over naive, UTC, fixed-offset, zero-offset and ZoneInfo zones), "
+         "parse_options_header inverting dump_options_header (property C06). Known finding: a set view holding case-insensitive duplicates drifts.",
     design="6/C16")
 
 
@@ -1066,6 +1070,91 @@ def wa_random_op(rng):
     return ("p", (n,))
 
 
+# ====================================================================== harness: mimetype_params (held view)
+
+def _mp_obs(r, d) -> str:
+    return "|".join([O(r.headers.get("Content-Type")), OQ(list(r.headers)), OQ(d.items()), O(r.mimetype)])
+
+
+def run_mp(chk, init, ops, oracle=True):
+    """ONE held mimetype_params view; the media type is changed behind its back through response.mimetype,
+    response.content_type and direct header edits (all three are, for the model, a direct edit with the resulting
+    header text).  Returns (model tokens, observation)."""
+    from werkzeug.http import dump_options_header
+    r = new_response(init)
+    d = r.mimetype_params
+    toks, obs = [], [_mp_obs(r, d)]
+    d0 = dict(d)
+    dirty = False
+    ok = oracle
+    for n, op in enumerate(ops):
+        if op[0] in ("mt", "ct", "hh", "hhd"):
+            if op[0] == "mt":
+                r.mimetype = op[1]
+            elif op[0] == "ct":
+                r.content_type = op[1]
+            else:
+                held_edit(r, "Content-Type", op)
+            text = r.headers.get("Content-Type")
+            toks.append("hhd" if text is None else "hh:" + S(text))
+            obs.append("N|" + _mp_obs(r, d))
+            dirty = False
+            continue
+        want_mt = r.mimetype
+        before = dict(d)
+        try:
+            res = dres(dop_apply(d, op))
+        except Exception as e:  # noqa: BLE001
+            res = exn_name(e)
+        toks.append(dop_tok(op, lambda v: "s" + S(v)))
+        obs.append(res + "|" + _mp_obs(r, d))
+        dirty = dirty or dict(d) != before
+        if not ok or not dirty:
+            continue
+        if not (want_mt and all(k and set(k) <= TOKEN and not k.endswith("*") for k in d)
+                and all(isinstance(v, str) and "\r" not in v and "\n" not in v for v in d.values())):
+            ok = False
+            continue
+        text = r.headers.get("Content-Type")
+        rr = r.mimetype_params
+        if r.mimetype != want_mt or text != dump_options_header(want_mt, d) or dict(rr) != dict(d):
+            chk.fail("mimetype-params-drift", f"after {op!r}: Content-Type {text!r} (mimetype {r.mimetype!r}); the held view {dict(d)!r} next to the "
+                     f"current media type {want_mt!r} serialises to {dump_options_header(want_mt, d)!r}; re-read params {dict(rr)!r}",
+                     {"kind": "mp", "init": [list(p) for p in init], "ops": [list(o) for o in ops[:n + 1]]})
+            ok = False
+    return toks, d0, " ".join(obs)
+
+
+MP_INITS = [(("Content-Type", "text/html; charset=utf-8"),), (("content-type", "application/json"), ("X", "1")),
+            (("Content-Type", 'multipart/form-data; boundary="a b"'),), ()]
+
+
+def mp_alphabet():
+    ops = [("mt", "application/json"), ("mt", "text/csv"), ("ct", "multipart/related; boundary=abc"), ("hh", "image/png"), ("hhd",),
+           ("clear",), ("popitem",), ("up", (("x", "1"), ("charset", "ascii")))]
+    for k in ("charset", "x"):
+        ops += [("si", k, "utf-8"), ("si", k, "a b"), ("di", k), ("pop", k), ("sd", k, "2")]
+    return ops
+
+
+def mp_random_op(rng):
+    r = rng.random()
+    if r < 0.3:
+        return rng.choice([("mt", rng.choice(["application/json", "text/csv", "image/png", "text/plain"])),
+                           ("ct", rng.choice(["multipart/related; boundary=abc", "text/plain", "application/xml; charset=latin1"])),
+                           ("hh", rng.choice(["text/csv; charset=utf-8", "application/octet-stream", " text/x ; a=b"])), ("hhd",)])
+    k = rng.choice(["charset", "boundary", "x", "profile"])
+    v = rng.choice(["utf-8", "a b", 'q"t', "latin1", "", "a;b"])
+    n = rng.choice(["si", "si", "di", "pop", "popd", "clear", "sd", "popitem", "up"])
+    if n in ("si", "sd", "popd"):
+        return (n, k, v)
+    if n in ("di", "pop"):
+        return (n, k)
+    if n == "up":
+        return ("up", ((k, v), ("x", "1")))
+    return (n,)
+
+
 # ====================================================================== harness: views judged by oracles only
 # (content_range, www_authenticate, mimetype_params and the scalar header_property pairs are not modelled in Coq
 #  in this revision unless coq/C16/Props.v says so; the property statement is transcribed here and judged on the
@@ -1490,6 +1579,14 @@ class Runner:
         self._push(" ".join(["wa", kvs(init, S)] + [wa_tok(o) for o in ops]), out, bool(ops),
                    f"www-authenticate:len{min(len(ops), 4)}{'+' if len(ops) > 4 else ''}")
 
+    def mp(self, init, ops, oracle=True):
+        out = self._guard(run_mp, self.chk, init, ops, oracle, case={"kind": "mp", "init": [list(p) for p in init], "ops": [list(o) for o in ops]})
+        if isinstance(out, str):
+            return
+        toks, d0, obs = out
+        self._push(" ".join(["mp", kvs(init, S), kvs(d0.items(), S)] + toks), obs, bool(ops),
+                   f"mimetype_params:len{min(len(ops), 4)}{'+' if len(ops) > 4 else ''}")
+
     def codec(self, cmd, arg_tok, out):
         self._push(f"{cmd} {arg_tok}", out, True, "codec:" + cmd)
 
@@ -1531,6 +1628,8 @@ def run_case(R: Runner, c: dict, oracle=True):
         R.cr(init, _case_ops(c), oracle)
     elif c["kind"] == "wa":
         R.wa(init, _wa_case_ops(c), oracle)
+    elif c["kind"] == "mp":
+        R.mp(init, _case_ops(c), oracle)
 
 
 def load_corpus():
@@ -1620,6 +1719,32 @@ def run(chk: Check) -> None:
     for _ in range(1500 if quick else 30000):
         R.wa(rng.choice(WA_INITS), [wa_random_op(rng) for _ in range(rng.randint(3, 15))])
 
+    # ---- mimetype_params: one held view, media type changed in between
+    mpa = mp_alphabet()
+    for init in MP_INITS:
+        R.mp(init, [])
+        for ops in itertools.product(mpa, repeat=2):
+            R.mp(init, ops)
+    for ops in itertools.product(mpa[:9] if quick else mpa, repeat=3):
+        R.mp(MP_INITS[0], ops)
+    for _ in range(1000 if quick else 20000):
+        R.mp(rng.choice(MP_INITS), [mp_random_op(rng) for _ in range(rng.randint(3, 12))])
+
+    # ---- www_authenticate = [a, b, ...]
+    from werkzeug.datastructures import WWWAuthenticate
+    wl = [("basic", None, (("realm", "a b"),)), ("bearer", "t0k", ()), ("digest", None, (("realm", "r"), ("nonce", "n"), ("stale", "x"))),
+          ("negotiate", "abc==", ())]
+    for init in WA_INITS[:3]:
+        for k in (1, 2, 3):
+            for items in itertools.permutations(wl, k):
+                r = new_response(init)
+                objs = [WWWAuthenticate(t, dict(ps) if tok is None else None, tok) for t, tok, ps in items]
+                r.www_authenticate = objs
+                if r.headers.getlist("WWW-Authenticate") != [o.to_header() for o in objs]:
+                    chk.fail("www-authenticate-drift", "list assignment does not produce one header line per item, in order",
+                             {"kind": "walist", "init": [list(p) for p in init], "items": [list(i) for i in items]})
+                R.codec("walist", kvs(init, S) + " " + " ".join(f"{S(t)};{ov(tok)};{kvs(ps, ov)}" for t, tok, ps in items), OQ(list(r.headers)))
+
     # ---- codecs directly: parse_list_header / parse_dict_header / dump_header / int
     atoms = ['"', ",", " ", "\\", "=", "a", "b", "Accept", "x y", "\t", ";", "*", "k", "é", "\x1c", "\xa0", '""', '\\"', ", ", "=v", "k="]
     for _ in range(3000 if quick else 60000):
@@ -1685,7 +1810,7 @@ def replay(rep) -> int:
     chk = Check(PID, "quick", 0)
     R = Runner(chk)
     inp = rep.get("input") or {}
-    if isinstance(inp, dict) and inp.get("kind") in ("sv", "cc", "csp", "cr", "wa"):
+    if isinstance(inp, dict) and inp.get("kind") in ("sv", "cc", "csp", "cr", "wa", "mp"):
         run_case(R, inp)
         print("case:", json.dumps(inp))
         for i, s in enumerate(R.impl[0].split(" ")):
@@ -1703,7 +1828,7 @@ def main(chk: Check) -> None:
     except px.Unsupported as e:
         chk.broken("translator", "C16/Gen.v", str(e))
     chk.forbidden_scan()
-    if chk.coq_make(["C16/ProofsCSP.vo", "C16/ProofsCR.vo", "C16/ProofsWA.vo", "C16/Extract.vo"]):
+    if chk.coq_make(["C16/ProofsCSP.vo", "C16/ProofsCR.vo", "C16/ProofsWA.vo", "C16/ProofsMisc.vo", "C16/Extract.vo"]):
         chk.audit_props("C16/Props.v")
     else:
         chk.cov["obligations"] += 1
@@ -1713,7 +1838,9 @@ def main(chk: Check) -> None:
         "extraction ExtrOcamlBasic (no Extract Constant) + tools/conv.ml + coq/C16/driver.ml, OCaml 4.13.1",
         "hand-written models of urllib.request.parse_http_list, str.strip (29 white-space code points), str.partition/split, "
         "int() on ASCII decimal strings; validated by differential execution",
-        "dates: email.utils / datetime are not modelled (the date-valued properties are judged by the harness oracle only)",
+        "contract: http_date has no CR/LF and parse_date(http_date(t)) is t at one-second resolution in UTC (email.utils / datetime; "
+        "validated by the harness over naive, UTC, fixed-offset, zero-offset non-singleton and ZoneInfo zones)",
+        "contract: parse_options_header(dump_options_header(mt, d)) = (mt, d) (property C06; validated by the harness on the held-view runs)",
     ]
     try:
         run(chk)
